@@ -154,6 +154,107 @@ func c06origins(v ssa.Value) []ssa.Value {
 	return out
 }
 
+// c06origin is a value v may stand for; ret is the Return of a helper it was
+// handed back by (nil: v lives in the function the query started in).
+type c06origin struct {
+	v   ssa.Value
+	ret *ssa.Return
+}
+
+// c06originsX is c06origins that also looks through the results of static
+// calls of repository helpers (one or two levels): `a, b := h.helper(...)`
+// stands for whatever helper's returns hand back at that result index.
+func c06originsX(p *Prog, v ssa.Value) []c06origin {
+	var out []c06origin
+	type key struct {
+		v   ssa.Value
+		ret *ssa.Return
+	}
+	seen := map[key]bool{}
+	var walk func(v ssa.Value, ret *ssa.Return, d, calls int)
+	walk = func(v ssa.Value, ret *ssa.Return, d, calls int) {
+		v = resolve(v)
+		if seen[key{v, ret}] || d > 12 {
+			return
+		}
+		seen[key{v, ret}] = true
+		if ph, ok := v.(*ssa.Phi); ok {
+			for _, e := range ph.Edges {
+				walk(e, ret, d+1, calls)
+			}
+			return
+		}
+		var call *ssa.Call
+		idx := 0
+		switch x := v.(type) {
+		case *ssa.Extract:
+			call, _ = x.Tuple.(*ssa.Call)
+			idx = x.Index
+		case *ssa.Call:
+			call = x
+		}
+		if call != nil && calls < 2 {
+			g := staticCallee(call)
+			if g != nil && len(g.Blocks) > 0 && p.IsRepoFn(g) && idx < g.Signature.Results().Len() {
+				n := 0
+				var sub []func()
+				complete := true
+				allInstrs(g, func(in ssa.Instruction) {
+					r, ok := in.(*ssa.Return)
+					if !ok || g.Recover == r.Block() {
+						return
+					}
+					rs := retResults(r)
+					if idx >= len(rs) || rs[idx] == nil {
+						complete = false
+						return
+					}
+					n++
+					rv := rs[idx]
+					sub = append(sub, func() { walk(rv, r, d+1, calls+1) })
+				})
+				if complete && n > 0 {
+					for _, f := range sub {
+						f()
+					}
+					return
+				}
+			}
+		}
+		out = append(out, c06origin{v, ret})
+	}
+	walk(v, nil, 0, 0)
+	return out
+}
+
+// c06helpersOf: fn and the repository functions of its package it calls
+// statically, up to two levels down.
+func c06helpersOf(p *Prog, fn *ssa.Function) []*ssa.Function {
+	out := []*ssa.Function{fn}
+	seen := map[*ssa.Function]bool{fn: true}
+	frontier := []*ssa.Function{fn}
+	for depth := 0; depth < 2; depth++ {
+		var next []*ssa.Function
+		for _, f := range frontier {
+			allInstrs(f, func(in ssa.Instruction) {
+				ci, ok := in.(ssa.CallInstruction)
+				if !ok {
+					return
+				}
+				g := staticCallee(ci)
+				if g == nil || seen[g] || len(g.Blocks) == 0 || !p.IsRepoFn(g) || fnPkg(g) != fnPkg(fn) {
+					return
+				}
+				seen[g] = true
+				out = append(out, g)
+				next = append(next, g)
+			})
+		}
+		frontier = next
+	}
+	return out
+}
+
 // c06walk collects the instructions reachable from the start of block b, not
 // continuing past stop instructions (included) and not crossing edgeStop edges.
 func c06walk(b *ssa.BasicBlock, stop func(ssa.Instruction) bool, edgeStop EdgePred) []ssa.Instruction {
@@ -1045,39 +1146,59 @@ func checkC06(c *Check) {
 		return ok && !isNil && resolve(x) == e.dialErr
 	}
 	// hook anchors
-	var hookCheck, hookTCP *ssa.Call
-	allInstrs(H, func(in ssa.Instruction) {
-		call, ok := in.(*ssa.Call)
-		if !ok || !call.Call.IsInvoke() || !types.Identical(call.Call.Value.Type(), hookT) {
-			return
+	// (the hook may be consulted in the handler itself or in a helper it calls)
+	hookChecks := map[ssa.Value]bool{}
+	var hookTCPs []*ssa.Call
+	hookFns := c06helpersOf(p, H)
+	for _, f := range hookFns {
+		allInstrs(f, func(in ssa.Instruction) {
+			call, ok := in.(*ssa.Call)
+			if !ok || !call.Call.IsInvoke() || !types.Identical(call.Call.Value.Type(), hookT) {
+				return
+			}
+			switch call.Call.Method.Name() {
+			case "Check":
+				hookChecks[call] = true
+				c.Saw(fnName(f))
+			case "TCP":
+				hookTCPs = append(hookTCPs, call)
+				c.Saw(fnName(f))
+			}
+		})
+	}
+	// hookedVal: v == true implies that RequestHook.Check was called and returned
+	// true.  v may be the Check call, a φ of it with false, or the result of a
+	// helper whose every return hands back such a value (a literal `true` being
+	// accepted on a return that lies behind the helper's own hooked edge).
+	var hookedVal func(v ssa.Value, depth int) bool
+	hookedAt := func(depth int) EdgePred {
+		return func(cond ssa.Value, pol bool) bool {
+			if len(hookChecks) == 0 {
+				return false
+			}
+			v, q := c06norm(cond, pol)
+			if !q {
+				return false
+			}
+			return hookedVal(v, depth)
 		}
-		switch call.Call.Method.Name() {
-		case "Check":
-			hookCheck = call
-		case "TCP":
-			hookTCP = call
-		}
-	})
-	hookedTrue := func(cond ssa.Value, pol bool) bool {
-		if hookCheck == nil {
-			return false
-		}
-		v, q := c06norm(cond, pol)
-		if !q {
-			return false
-		}
+	}
+	hookedVal = func(v ssa.Value, depth int) bool {
 		has := false
-		for _, o := range c06origins(v) {
+		for _, o := range c06originsX(p, v) {
 			switch {
-			case o == ssa.Value(hookCheck):
+			case hookChecks[o.v]:
 				has = true
-			case isConstBool(o, false):
+			case isConstBool(o.v, false):
+			case isConstBool(o.v, true) && o.ret != nil && depth < 2 && guardedBy(o.ret, hookedAt(depth+1)):
+				has = true
 			default:
 				return false
 			}
 		}
 		return has
 	}
+	hookedTrue := hookedAt(0)
 
 	// ---- copy sites with endpoint roles
 	var sites []*c06site
@@ -1632,6 +1753,39 @@ func checkC06(c *Check) {
 			good := guardedBy(in, dialOK) || guardedBy(in, hookedTrue)
 			c.Req(good, key, r6, p.InstrPos(in), "an ok response is written on a path that crossed neither the dial-success edge nor the hook edge (the client is told 'connected' before / without a successful dial)")
 		})
+		// ok responses written by a helper of the handler (e.g. the extracted hook handling)
+		for _, g := range hookFns {
+			if g == H {
+				continue
+			}
+			nG := 0
+			allInstrs(g, func(in ssa.Instruction) {
+				call, ok := in.(*ssa.Call)
+				if !ok || !calleeIs(call, pProtocol, "WriteTCPResponse") || len(call.Call.Args) != 3 {
+					return
+				}
+				if e.role(call.Call.Args[0], 0) != "client" || !isConstBool(call.Call.Args[1], true) {
+					return
+				}
+				nG++
+				nOK++
+				c.Saw(fnName(g))
+				key := "C06.R6:" + fnName(g) + ":ok-response"
+				if nG > 1 {
+					key = fmt.Sprintf("%s#%d", key, nG)
+				}
+				good := guardedBy(in, hookedTrue)
+				if !good && len(e.sites[g]) > 0 {
+					good = true
+					for _, cs := range e.sites[g] {
+						if cs.Parent() != H || !(guardedBy(cs, dialOK) || guardedBy(cs, hookedTrue)) {
+							good = false
+						}
+					}
+				}
+				c.Req(good, key, r6, p.InstrPos(in), "an ok response is written by a helper of the handler on a path that crossed neither the hook edge nor (at its call sites) the dial-success edge (the client is told 'connected' before / without a successful dial)")
+			})
+		}
 		c.Floor("C06.R6:"+hname+":ok-response", nOK, 1)
 		early := ""
 		for _, tb := range c06edgeTargets(H, dialOK) {
@@ -1705,20 +1859,29 @@ func checkC06(c *Check) {
 
 	// ---- R7 replay bytes precede the relay
 	const r7 = "C06.R7 the bytes consumed by the request hook are written, whole and once, to the target behind the dial-success edge and before either relay starts; the handler writes nothing else to the target"
-	if hookTCP == nil {
-		c.Unres("RequestHook.TCP call in " + hname)
+	if len(hookTCPs) == 0 {
+		c.Unres("RequestHook.TCP call in " + hname + " or a helper it calls")
 	} else {
-		hookBytes := extractOf(hookTCP, 0)
+		hookTCP := hookTCPs[0]
+		hookBytesSet := map[ssa.Value]bool{}
+		var hookBytes ssa.Value
+		for _, ht := range hookTCPs {
+			if hb := extractOf(ht, 0); hb != nil {
+				hookBytesSet[hb] = true
+				hookBytes = hb
+			}
+		}
+		// the hook's bytes, possibly handed back to the handler by the helper that ran the hook
 		isP := func(v ssa.Value) bool {
 			if hookBytes == nil {
 				return false
 			}
 			has := false
-			for _, o := range c06origins(v) {
+			for _, o := range c06originsX(p, v) {
 				switch {
-				case o == hookBytes:
+				case hookBytesSet[o.v]:
 					has = true
-				case isNilConst(o):
+				case isNilConst(o.v):
 				default:
 					return false
 				}
@@ -1737,8 +1900,10 @@ func checkC06(c *Check) {
 				if isP(buf) {
 					replays = append(replays, replay{in, buf})
 				} else {
-					if hookBytes != nil && derivedFrom(buf, hookBytes) {
-						partial = p.InstrPos(in)
+					for hb := range hookBytesSet {
+						if derivedFrom(buf, hb) {
+							partial = p.InstrPos(in)
+						}
 					}
 					inject = p.InstrPos(in)
 				}
